@@ -44,7 +44,8 @@ def r15(ctx):
         ctx.violation("R15a", fl, name, sv, "solver result kept whole",
                       f"`{norm(sv, 80)}` keeps only part of the solver's answer (row_ind, col_ind): when there are more rows "
                       f"than columns the solver skips rows, so the row of each column cannot be recovered from its position")
-    arr = call.args[0] if call.args else None
+    from ..astx import resolve_local
+    arr = resolve_local(fn, call.args[0]) if call.args else None     # np.array(...) possibly through a local
     mx = next((k.value for k in call.keywords if k.arg == "maximize"), None)
     # role names: the weight table is what is handed to np.array, the dtype variable is its dtype= keyword
     WV = dotted(arr.args[0]) if isinstance(arr, ast.Call) and arr.args else None
